@@ -183,3 +183,30 @@ T('C07', 'derivative-ge-swapped', [(CDP, "        if derivative<0:\n            
 T('C07', 'midpoint-half', [(CDP, "        rho=(rhomin+rhomax)/2", "        rho=0.5*(rhomin+rhomax)")])
 T('C07', 'amax-wider', [(CDP, "    amax=(eps+1)/(2*rho)+2", "    amax=(eps+1)/(2*rho)+3")])
 T('C07', 'delta-factored', [(CDP, "math.exp((alpha-1)*(alpha*rho-eps)+alpha*math.log1p(-1/alpha)) / (alpha-1.0)", "math.exp(alpha*(alpha-1)*rho-(alpha-1)*eps+alpha*math.log1p(-1/alpha)) / (alpha-1)")])
+
+# ------------------------------------------------------------------ C20
+MECH = 'mechanisms/mechanism.py'
+MST = 'mechanisms/mst.py'
+AG = 'mechanisms/adaptive_grid.py'
+MWEM = 'mechanisms/mwem+pgm.py'
+AIM = 'mechanisms/aim.py'
+K('C20', 'em-coef-one', [(MECH, "            p = softmax(0.5*epsilon/sensitivity*q)\n", "            p = softmax(1.0*epsilon/sensitivity*q)\n")], 'logits-calibrated')
+K('C20', 'em-drop-sensitivity', [(MECH, "            p = softmax(0.5*epsilon/sensitivity*q + base_measure)", "            p = softmax(0.5*epsilon*q + base_measure)")], 'logits-calibrated')
+K('C20', 'paf-raw-exp', [(MECH, "        q = qualities - qualities.max()\n        p = np.exp(0.5*epsilon/sensitivity*q)", "        q = qualities\n        p = np.exp(0.5*epsilon/sensitivity*q)")], 'stable')
+K('C20', 'mst-coef-always-one', [(MST, "    coef = 1.0 if monotonic else 0.5\n    scores = coef*eps/sensitivity*q\n", "    coef = 1.0\n    scores = coef*eps/sensitivity*q\n")], 'logits-calibrated')
+K('C20', 'mst-monotonic-inverted', [(MST, "    coef = 1.0 if monotonic else 0.5\n    scores = coef*eps/sensitivity*q\n", "    coef = 0.5 if monotonic else 1.0\n    scores = coef*eps/sensitivity*q\n")], 'logits-calibrated')
+K('C20', 'mst-raw-exp', [(MST, "    probas = np.exp(scores - logsumexp(scores))\n    return prng.choice(q.size, p=probas)", "    probas = np.exp(scores)\n    probas = probas / probas.sum()\n    return prng.choice(q.size, p=probas)")], 'stable')
+T('C20', 'ag-shifted-exp-renormalised', [(AG, "    probas = np.exp(scores - logsumexp(scores))\n    return prng.choice(q.size, p=probas)", "    probas = np.exp(scores)\n    probas = probas / probas.sum()\n    return prng.choice(q.size, p=probas)")])
+K('C20', 'mwem-bounded-sens-one', [(MWEM, "    sensitivity = 2.0 if bounded else 1.0", "    sensitivity = 1.0")], 'sensitivity-flag')
+K('C20', 'mwem-squared-eps', [(MWEM, "softmax(0.5*eps/sensitivity*(errors - errors.max()))", "softmax(0.5*eps*eps/sensitivity*(errors - errors.max()))")], 'logits-calibrated')
+K('C20', 'laplace-scale-no-double', [(MECH, "        if self.bounded: l1_sensitivity *= 2.0\n", "        if self.bounded: l1_sensitivity *= 1.0\n")], 'scale-helper')
+K('C20', 'gauss-scale-sqrt2', [(MECH, "        if self.bounded: l2_sensitivity *= 2.0\n", "        if self.bounded: l2_sensitivity *= np.sqrt(2.0)\n")], 'scale-helper')
+K('C20', 'gauss-variance-as-scale', [(MECH, "        return self.prng.normal(0, sigma, size)", "        return self.prng.normal(0, sigma**2, size)")], 'sampler-identity')
+K('C20', 'base-measure-values', [(MECH, "                base_measure = np.log([base_measure[key] for key in keys])\n        else:\n            qualities = np.array(qualities)",
+                                   "                base_measure = np.log(list(base_measure.values()))\n        else:\n            qualities = np.array(qualities)")], 'key-aligned')
+K('C20', 'gem-halves-eps', [(MECH, "key = self.exponential_mechanism(scores, epsilon, 1.0, base_measure=base_measure)", "key = self.exponential_mechanism(scores, 2*epsilon, 1.0, base_measure=base_measure)")], 'forwards-eps')
+K('C20', 'em-extra-data-term', [(MECH, "            p = softmax(0.5*epsilon/sensitivity*q)\n", "            p = softmax(0.5*epsilon/sensitivity*q + 0.1*q*q)\n")], None)
+T('C20', 'em-coef-spelled', [(MECH, "            p = softmax(0.5*epsilon/sensitivity*q)\n", "            p = softmax(epsilon/(2*sensitivity)*q)\n")])
+T('C20', 'mst-two-step-coef', [(MST, "    scores = coef*eps/sensitivity*q\n", "    scale = coef*eps/sensitivity\n    scores = scale*q\n")])
+T('C20', 'laplace-scale-ifexp', [(MECH, "        if self.bounded: l1_sensitivity *= 2.0\n        return l1_sensitivity / epsilon", "        return (2.0 if self.bounded else 1.0) * l1_sensitivity / epsilon")])
+T('C20', 'sampler-keywords', [(MECH, "        return self.prng.laplace(0, b, size)", "        return self.prng.laplace(loc=0, scale=b, size=size)")])
